@@ -8,14 +8,18 @@ From RichModel Require Import Prelude Cells Segments Wire Record SpecRecord.
 From RichGen Require Import RecordFacts.
 From RichProofs Require Import RecordP RecordP2 RecordP3 RecordP4.
 
-(* the hypothesis on the abstract ANSI wrapper: the (independent) terminal-text scanner, run on the
-   wrapper of a plain text, ends at rest and has shown exactly the text *)
+(* the hypothesis on the abstract ANSI wrapper: it is transparent to the (independent) terminal-text
+   scanner -- if the scanner, started at rest on a text, ends at rest having shown o, then on the wrapped
+   text it also ends at rest having shown o.  (Plain text shows itself, a complete control string nothing.) *)
 Definition esc_removable (esc : Z -> bool -> Z -> str -> str) : Prop :=
-  forall cs lw s t, plain_b t = true -> vrun VGround (esc cs lw s t) = (VGround, t).
+  forall cs lw s t o, vrun VGround t = (VGround, o) -> vrun VGround (esc cs lw s t) = (VGround, o).
 
 (* satisfiable: ESC [ n m text ESC [ 0 m *)
 Example C15_esc_removable_nonvacuous : esc_removable toy_esc.
-Proof. exact toy_esc_visible. Qed.
+Proof. exact toy_esc_transparent. Qed.
+
+(* well-formed histories (wf_hist_b): printed text has no ESC / C0 control characters but newline; the text
+   of a control segment -- styled or not -- is made of complete escape sequences / control characters *)
 
 (* (1) after EVERY well-formed history (any mix of print/log/rule/line/control/bell/clear/show_cursor,
    captures -- nested or unbalanced too -- and exports), on every configuration: export_text returns the
@@ -23,7 +27,7 @@ Proof. exact toy_esc_visible. Qed.
    captured output as well) since the record was last emptied, in order *)
 Theorem C15_export_text_is_visible_of_rendered :
   forall truthy esc html_rule html_link, esc_removable esc ->
-  forall kc he c h clear, wf_hist_b truthy c h = true ->
+  forall kc he c h clear, wf_hist_b c h = true ->
   let '(s, es) := run truthy esc html_rule html_link kc he c st0 h in
   ret (snd (step truthy esc html_rule html_link kc he c s (ExportText clear false)))
   = Some (visible (rendered_since_clear [] h es)).
@@ -39,7 +43,7 @@ Print Assumptions C15_export_text_is_visible_of_rendered.
    cropping to the width) and the strings given to control() *)
 Theorem C15_export_text_is_visible_of_rendered_inputs :
   forall truthy esc html_rule html_link, esc_removable esc ->
-  forall kc he c h clear, forallb (wf_input_b truthy) h = true ->
+  forall kc he c h clear, forallb wf_input_b h = true ->
   let '(s, es) := run truthy esc html_rule html_link kc he c st0 h in
   ret (snd (step truthy esc html_rule html_link kc he c s (ExportText clear false)))
   = Some (visible (rendered_since_clear [] h es)).
@@ -52,7 +56,7 @@ Print Assumptions C15_export_text_is_visible_of_rendered_inputs.
 (* ... in particular, with no capture and no clearing export: the visible text of the file *)
 Theorem C15_export_text_is_visible_of_file :
   forall truthy esc html_rule html_link, esc_removable esc ->
-  forall kc he c h, wf_hist_b truthy c h = true -> quiet h = true ->
+  forall kc he c h, wf_hist_b c h = true -> quiet h = true ->
   let '(s, es) := run truthy esc html_rule html_link kc he c st0 h in
   export_plain (rec_ s) = visible (file_of es).
 Proof.
@@ -87,7 +91,7 @@ Proof. vm_compute. reflexivity. Qed.
 (* (1)+(2)+(3a) the checker evaluated on the implementation, on the model, for every history *)
 Theorem C15_exports_agree :
   forall truthy esc html_rule html_link, esc_removable esc -> (forall s, no_quote (html_rule s)) ->
-  forall c h inline, wf_hist_b truthy c h = true ->
+  forall c h inline, wf_hist_b c h = true ->
   let '(s, es) := run truthy esc html_rule html_link simplify_keeps_control href_is_escaped c st0 h in
   texts_agree_b (rendered_since_clear [] h es) (export_plain (rec_ s))
     (html_code truthy html_rule html_link simplify_keeps_control href_is_escaped inline (rec_ s))
@@ -106,12 +110,14 @@ Print Assumptions C15_exports_agree.
 Example C15_exports_agree_nonvacuous :
   let c := mkCfg 4 true 1 false in
   let h := [Clear true; Line 1; Print true [mkSeg (lit "a<b&c>d") (Some 1) false; mkSeg [NL] None false];
+            Print true [mkSeg CURSOR_HIDE (Some 5) true];      (* a STYLED control segment *)
             BeginCapture; Bell; Print true [mkSeg (lit "x") (Some 2) false]; EndCapture] in
-  wf_hist_b all_truthy c h = true /\
+  wf_hist_b c h = true /\
   (let '(s, es) := run all_truthy toy_esc norule quote_link true true c st0 h in
    (file_of es, export_plain (rec_ s),
     html_code all_truthy norule quote_link true true true (rec_ s)))
-  = (CLEAR_HOME ++ [NL] ++ toy_esc 1 false 1 (lit "a<b&") ++ [NL],      (* cropped at width 4 *)
+  = (CLEAR_HOME ++ [NL] ++ toy_esc 1 false 1 (lit "a<b&") ++ [NL]       (* cropped at width 4 *)
+       ++ toy_esc 1 false 5 CURSOR_HIDE,
      [NL] ++ lit "a<b&" ++ [NL] ++ lit "x",                            (* the captured x is recorded *)
      [NL] ++ lit "<a href=""a&quot;&gt;b"">a&lt;b&amp;</a>" ++ [NL] ++ lit "<a href=""a&quot;&gt;b"">x</a>").
 Proof. vm_compute. split; reflexivity. Qed.
@@ -187,7 +193,7 @@ Print Assumptions C15_clear_flag.
 (* D12: Segment.simplify merges a control segment with following unstyled text into a non-control
    segment: console.clear(); console.line() puts ESC[2J ESC[H into the HTML *)
 Theorem C15_export_html_text_asis_refuted : exists (r : list sg) inline,
-  forallb (wf_seg_b all_truthy) r = true /\
+  forallb wf_seg_b r = true /\
   html_text (html_code all_truthy norule nolink false true inline r) <> export_plain r.
 Proof.
   exists [mkSeg CLEAR_HOME None true; mkSeg [NL] None false], true. split; [reflexivity|].
